@@ -29,11 +29,11 @@ pub fn l_schema() -> Schema {
                 tags: Some(user()),
                 enum_ids: None,
             },
-            EntDef { name: "Group".into(), member_of: vec!["Group".into()], attrs: vec![at("lead", user(), false)], tags: None, enum_ids: None },
+            EntDef { name: "Group".into(), member_of: vec!["Group".into()], attrs: vec![at("lead", user(), false), at("up", Ty::Ent("Group".into()), false)], tags: None, enum_ids: None },
             EntDef {
                 name: "Doc".into(),
                 member_of: vec!["Group".into()],
-                attrs: vec![at("owner", user(), true), at("meta", Ty::Rec(vec![at("by", user(), true)]), true)],
+                attrs: vec![at("owner", user(), true), at("meta", Ty::Rec(vec![at("by", user(), true)]), true), at("folder", Ty::Ent("Group".into()), true)],
                 tags: None,
                 enum_ids: None,
             },
@@ -122,15 +122,19 @@ pub fn l_stores(tier: Tier) -> Vec<Store> {
                                         g.parents.insert(gh());
                                         if g_variant == 2 {
                                             g.attrs.insert("lead".into(), Val::Uid(ua()));
+                                            // up: a group that is NOT an ancestor of anything (after seed C17-a1)
+                                            g.attrs.insert("up".into(), Val::Uid(Uid::new("Group", "k")));
                                         }
                                         s.ents.insert(gg(), g);
                                         s.ents.insert(gh(), Ent::default());
+                                        s.ents.insert(Uid::new("Group", "k"), Ent::default());
                                     }
                                     let mut d = Ent::default();
                                     d.attrs.insert("owner".into(), Val::Uid(if d_owner_b { ub() } else { ua() }));
                                     let mut meta = BTreeMap::new();
                                     meta.insert("by".to_string(), Val::Uid(if d_owner_b { uc() } else { ub() }));
                                     d.attrs.insert("meta".into(), Val::Rec(meta));
+                                    d.attrs.insert("folder".into(), Val::Uid(gg()));
                                     d.parents.insert(gg());
                                     s.ents.insert(dd(), d);
                                     out.push(s);
@@ -210,9 +214,11 @@ fn extend(p: &Path) -> Vec<Path> {
         }
         "Group" => {
             out.push(mk(E::attr(x.clone(), "lead"), Some(E::has(x.clone(), "lead")), "User", false));
+            out.push(mk(E::attr(x.clone(), "up"), Some(E::has(x.clone(), "up")), "Group", false));
         }
         "Doc" => {
             out.push(mk(E::attr(x.clone(), "owner"), None, "User", false));
+            out.push(mk(E::attr(x.clone(), "folder"), None, "Group", false));
             out.push(mk(E::attr(E::attr(x.clone(), "meta"), "by"), None, "User", false));
         }
         _ => {}
@@ -276,6 +282,20 @@ pub fn policies(tier: Tier) -> Vec<LPol> {
         push(format!("steps{}:eq", p.steps), guarded(g, E::bin(BinOp::Eq, x.clone(), E::Ent(ua()))), p.uses_tags, &mut out);
         push(format!("steps{}:is", p.steps), guarded(g, E::Is(b(x.clone()), p.ty.to_string())), p.uses_tags, &mut out);
         push(format!("steps{}:in-right", p.steps), guarded(g, E::bin(BinOp::In, E::Var(Var::Principal), x.clone())), p.uses_tags, &mut out);
+        if p.ty == "Group" {
+            // `in` against a path and against a longer path through the same node (the manifest
+            // must keep the ancestor request of the shared node)
+            let pr = E::Var(Var::Principal);
+            let up = E::attr(x.clone(), "up");
+            let mut g2 = g.clone();
+            g2.push(E::has(x.clone(), "up"));
+            push(format!("steps{}:prefix-in-or", p.steps), guarded(&g2, E::or(E::bin(BinOp::In, pr.clone(), x.clone()), E::bin(BinOp::In, pr.clone(), up.clone()))), p.uses_tags, &mut out);
+            push(format!("steps{}:prefix-in-or-rev", p.steps), guarded(&g2, E::or(E::bin(BinOp::In, pr.clone(), up.clone()), E::bin(BinOp::In, pr.clone(), x.clone()))), p.uses_tags, &mut out);
+            push(format!("steps{}:prefix-in-set", p.steps), guarded(&g2, E::bin(BinOp::In, pr.clone(), E::Set(vec![up.clone(), x.clone()]))), p.uses_tags, &mut out);
+            push(format!("steps{}:prefix-in-and-not", p.steps), guarded(&g2, E::and(E::bin(BinOp::In, pr.clone(), x.clone()), E::not(E::bin(BinOp::In, pr.clone(), up.clone())))), p.uses_tags, &mut out);
+            push(format!("steps{}:resource-in-and-principal-in", p.steps), guarded(g, E::and(E::bin(BinOp::In, E::Var(Var::Resource), x.clone()), E::bin(BinOp::In, pr.clone(), x.clone()))), p.uses_tags, &mut out);
+            push(format!("steps{}:in-literal-set-with-path", p.steps), guarded(g, E::bin(BinOp::In, pr.clone(), E::Set(vec![E::Ent(gh()), x.clone()]))), p.uses_tags, &mut out);
+        }
         if p.ty == "User" {
             // dereference hidden inside a record literal
             let rec = E::Rec(vec![("f".into(), x.clone()), ("k".into(), E::Long(1))]);
